@@ -446,8 +446,14 @@ def evaluate_payload_template(input, context, template):
                     "States.ArrayUnique failed, arg[0] is not an array."
                 )
 
-            # Use set to get unique values from input then use list to convert back
-            return list(set(input_array))
+            # Keep the first occurrence of each value. A set is not used because
+            # its iteration order depends on PYTHONHASHSEED and because arrays
+            # and objects are not hashable.
+            unique = []
+            for item in input_array:
+                if item not in unique:
+                    unique.append(item)
+            return unique
 
         def asl_intrinsic_Base64Encode(args):
             if len(args) != 1:
